@@ -38,7 +38,10 @@ Fixpoint first_modulo (w : N) (ms : list N) : option N :=
 Definition win_stage4 (window mss total_header min_tcp : N) : R wsize :=
   if 0 <? mss then
     if 0 <? total_header then
-      or_else (check_div window (sat_add u16_max mss total_header)) WMtu (Ok (WValue window))
+      (* `if let Some(mtu) = mss.checked_add(total_header) { check_mtu_div!(mtu) }` *)
+      if mss + total_header <=? u16_max then
+        or_else (check_div window (mss + total_header)) WMtu (Ok (WValue window))
+      else Ok (WValue window)
     else
       or_else (check_div window (sat_add u16_max mss min_tcp)) WMtu (Ok (WValue window))
   else Ok (WValue window).
@@ -106,7 +109,8 @@ Definition from_client (flags : N) : bool := negb (N.land flags 2 =? 0) && (N.la
 Definition visit_tcp_v4 (flags window ihl data_offset : N) (opts : bytes) : R tcpsum :=
   st <- visit_opts flags opts ;;
   let mtu := match os_mss st with Some m => mtu_v4 flags ihl data_offset m | None => None end in
-  w <- detect_win window (match os_mss st with Some m => m | None => 0 end) ihl (has_ts st) false ;;
+  (* `min_total_header`: 40 for IPv4 (minimal IP + TCP header bytes); `ihl` only reaches mtu.rs *)
+  w <- detect_win window (match os_mss st with Some m => m | None => 0 end) 40 (has_ts st) false ;;
   Ok {| ts_opts := st; ts_win := w; ts_mtu := if from_client flags then mtu else None |}.
 
 Definition show_wsize (w : wsize) : bytes :=
